@@ -55,6 +55,11 @@ func genC12(tier string, seed int64) []core.Case {
 		c := core.Case{ID: fmt.Sprintf("conc%04d", i), Kind: "conc", Seed: r.Int63(),
 			S: map[string]string{"delay": gen.DelayProfiles[r.Intn(len(gen.DelayProfiles))]},
 			N: map[string]int64{"clients": int64(4 + r.Intn(13)), "txns": int64(30 + r.Intn(31))}}
+		if i%3 == 1 {
+			c.N["procs"] = int64(1 + i%2)
+			c.N["clients"] = int64(12 + r.Intn(13))
+			c.N["txns"] = int64(15 + r.Intn(16))
+		}
 		if i == 0 {
 			c.N["sample"] = 1
 		}
